@@ -32,6 +32,16 @@ CLAIMS = {
             'TLC checks exactness, index bounds, the sortedness flag and termination (liveness) of isSorted / linear / binary search with the threshold dispatch for all registry sizes 0..40 x every gap position, all permutations up to size 5, the two shipped sizes and seeded shuffles, and refutes the as-found binary search. Every one of those cases is replayed on a real ZoneRegistrar built from shipped zones (ASan build, exact-size heap registry, comparator injected through the existing template parameter): result, zone info, the *sequence of probed entries* and the manager\'s createFor* result must equal the model\'s; ids (all shipped, 0, 0xFFFFFFFF, absent) and indices 0..size+1 on the full and on small registries are compared with the direct definition.',
             'Trusted: hostshim. Termination of the real code is observed via a probe budget (size+20 comparisons) and a 3 s watchdog per lookup.',
             '§4.6, §6-C10'),
+    'C13': ('model_checking',
+            'TLA+ spec of SystemClock (SystemClock.tla) checked exhaustively by TLC on scaled constants and on the real constants over boundary sets; every real-constant model transition replayed into the real class; native phase x gap sweep; random schedules recorded from the real class validated by SystemClock_Trace.tla',
+            'TLC proves ExactTime (reading = T + floor(elapsed/S) while polling gaps <= W-S), the sentinel rules, monotonicity and the backup law for every phase x gap x operation sequence to the depth bound on scaled constants (W=32,S=5; W=16,S=3), and for W=65536,S=1000 on boundary phases/gaps; each transition of the latter graph is replayed in a subclass of the real SystemClock (injected clockMillis, counter bases straddling 2^16 and 2^32) comparing mEpochSeconds, mPrevMillis, mIsInit, mLastSyncTime, backup writes and the reading. The native sweep covers (phase, gap) single and double polls (thorough: all 65536 x 64536), and seeded random schedules are validated as traces by TLC with ExactTime evaluated at every step.',
+            'One known finding (re-setting to the seconds the clock currently stores keeps the old sub-second phase) is excluded from the environment of the passing configuration, refuted by TLC in a second configuration and replayed on the real class each run (KNOWN-FINDING). Host unsigned long is 64-bit.',
+            '§4.8, §6-C13'),
+    'C14': ('model_checking',
+            'TLA+ spec of the loop() state machine with reference/backup clocks (SystemClockLoop.tla) checked exhaustively by TLC to a time horizon for several configurations; every transition of the model graph replayed into the real SystemClockLoop with recording fake clocks',
+            'TLC checks ValidApplied, BackupLaw/BackupValue, NoCorrupt, Separation, BackoffLaw, BoundedResponse (safety form of "always issues another request"), RequestCount and NoReferenceOnlyKeepsTime over all interleavings of time steps with reference-clock outcomes {not ready, ready+valid (two values), ready+invalid} for 4 (thorough 6) configurations x {distinct backup, backup = reference, no reference}; vacuity is excluded by requiring every loop() branch to be taken. Every transition of the (shorter-horizon) graph is replayed in a subclass of the real class and the FSM status, retry period, request/sync timestamps, embedded clock state, backup writes, requests sent, getNow() and getLastSyncTime() are compared with the model after every loop() call.',
+            'Time on a per-configuration lattice of step sizes, loop() after every step. 32-bit wrap of millis() inside SystemClockLoop is not exercised on the 64-bit host.',
+            '§4.8, §6-C14'),
 }
 
 PLANNED = {
